@@ -1462,7 +1462,8 @@ func GenerateF(genseed uint64, stream string, thorough bool) *FCase {
 	if !c.Sched && c.Src != "remote" && r.Chance(1, 12) {
 		c.Src = "file"
 	}
-	if c.API != "r" && c.Dst != "remote" && r.Chance(1, 4) {
+	if c.API != "r" && c.Dst != "remote" && !twins && r.Chance(1, 4) {
+		// (twins and Mount are not combined, as in C01: the model's Mount path has no "already there" answer)
 		c.Mount = true
 	}
 	if (c.API == "t" || c.API == "r") && r.Chance(1, 3) {
